@@ -391,6 +391,34 @@ def part_run(ctx: Ctx) -> Result:
     if missing:
         res.violate(Violation(ID, "run", "admitted-not-recorded", case, f"admitted calls not recorded: {sorted(missing)} (rows: {sorted(rows)})"))
     res.oblige("R:script-functions-ran-as-__main__", True)
+    # the CLI's own listing of recorded modules, and `run -m <module>` (the module then IS __main__)
+    out2, err2 = io.StringIO(), io.StringIO()
+    cli.main(["-c", "mcfg:CONFIG", "list-modules"], out2, err2)
+    listed = sorted(x for x in out2.getvalue().split("\n") if x)
+    res.transitions += 1
+    if listed != sorted({m for m, _ in rows}):
+        res.violate(Violation(ID, "run", "list-modules-differs", case, f"`list-modules` prints {listed}, the store holds rows of {sorted({m for m, _ in rows})}"))
+    runmod = f"c17runm_{ctx.seed}"
+    (d / f"{runmod}.py").write_text(PROGRAM.format(mod=modname))
+    db2 = str(d / "run_m.sqlite3")
+    mcfg.reset(db=db2)
+    clear_cache()
+    out3, err3 = io.StringIO(), io.StringIO()
+    res.states += 1
+    res.evaluations += 1
+    try:
+        rc3 = cli.main(["-c", "mcfg:CONFIG", "run", "-m", runmod], out3, err3)
+    except SystemExit as e:
+        rc3 = f"SystemExit({e.code})"
+    store3 = mcfg.CONFIG.trace_store()
+    rows3 = {(t.module, t.qualname) for m in store3.list_modules() for t in store3.filter(m)}
+    if rc3 != 0:
+        res.violate(Violation(ID, "run", "run-m-nonzero", case, f"run -m rc={rc3} {err3.getvalue()[:200]}"))
+    if any(m.startswith("__main__") or m == runmod for m, _ in rows3):
+        res.violate(Violation(ID, "run", "main-recorded", case, f"`run -m`: functions of the module run as __main__ were recorded: {sorted(rows3)[:6]}"))
+    if want - rows3:
+        res.violate(Violation(ID, "run", "admitted-not-recorded", case, f"`run -m`: admitted calls not recorded: {sorted(want - rows3)}"))
+    mcfg.reset(db=db)
     res.sample({"part": "R", "rows": sorted(rows)})
     # custom filters: every subset of the 6 functions
     mod = importlib.import_module(modname)
